@@ -223,6 +223,9 @@ func TestVerifC21Store(t *testing.T) {
 				return
 			}
 			acked.Store(k)
+			if k > 3000 {
+				time.Sleep(2 * time.Millisecond) // keep the database (and every backup of it) small enough
+			}
 		}
 	}()
 	wg.Add(1)
@@ -249,8 +252,9 @@ func TestVerifC21Store(t *testing.T) {
 			}
 		}
 	}
-	rounds := vfScale(4, 60)
-	for round := 0; round < rounds; round++ {
+	rounds := vfScale(4, 40)
+	deadline := time.Now().Add(time.Duration(vfScale(60, 600)) * time.Second) // the database keeps growing: time-box the run
+	for round := 0; round < rounds && time.Now().Before(deadline); round++ {
 		for _, cfg := range cfgs {
 			before := acked.Load()
 			var buf bytes.Buffer
